@@ -86,6 +86,10 @@ pub fn nontrivial(p: &str, o: &Obs) -> bool {
 pub trait Stepper {
   fn step(&mut self, e: &Event) -> crate::key_transforms::StepResult;
   fn release_all(&mut self) -> Vec<Event>;
+  /// events written to the virtual keyboard after this step's own output and before the next key
+  /// event is read, by something other than the mapper (world E: timer chords). They only move the
+  /// folded output state; no oracle is evaluated on them (C11 owns them).
+  fn after_step(&mut self) -> Vec<Event> { vec![] }
 }
 impl Stepper for Mapper {
   fn step(&mut self, e: &Event) -> crate::key_transforms::StepResult { Mapper::step(self, e.clone()) }
@@ -93,7 +97,7 @@ impl Stepper for Mapper {
 }
 /// Outputs recorded per delivered event by an end-to-end run. The repeat request is not visible
 /// end to end, so oracles that need it (C06 twin, C09) are not used with this stepper.
-pub struct Precomputed { pub steps: Vec<Vec<Event>>, pub i: usize }
+pub struct Precomputed { pub steps: Vec<Vec<Event>>, pub chords: Vec<Vec<Event>>, pub i: usize }
 impl Stepper for Precomputed {
   fn step(&mut self, _e: &Event) -> crate::key_transforms::StepResult {
     let events = self.steps.get(self.i).cloned().unwrap_or_default();
@@ -101,6 +105,7 @@ impl Stepper for Precomputed {
     crate::key_transforms::StepResult { events, repeat: ResultingRepeat::Disabled }
   }
   fn release_all(&mut self) -> Vec<Event> { vec![] }
+  fn after_step(&mut self) -> Vec<Event> { if self.i == 0 { vec![] } else { self.chords.get(self.i - 1).cloned().unwrap_or_default() } }
 }
 
 /// Execute a case against the real mapper and evaluate the enabled oracles after every op.
@@ -439,6 +444,8 @@ pub fn execute_with(case: &CaseA, en: &En, obs: &mut Obs, mapper: &mut dyn Stepp
         seg_fired_abs_or_special = false;
       }
     }
+    // whatever else was written before the next key event (timer chords, world E) moves the output state
+    for e in mapper.after_step() { fold1(&mut out, &e); }
   }
   obs.digest = dg.fin();
   None
